@@ -477,9 +477,23 @@ def gen_history(rng, tag, n_steps=None, fault_p=0.3):
             if any(w.scale(u) is None and w.classes[w.units[u]['cls']]['ref'] is not None
                    for u in us):
                 continue
+            # sometimes exactly the units of a unit derived earlier for this type (the new
+            # unit's scale then coincides with an existing non-reference unit)
+            earlier = [d for d in script if d['d'] == 'derive' and d['cls'] == c['name']
+                       and len(d['units']) == len(c['cdef']) and all(x in w.units for x in d['units'])]
+            reuse = earlier and rng.random() < 0.4
+            if reuse:
+                us = list(rng.choice(earlier)['units'])
             items = [[['u', u], e] for u, (_, e) in zip(us, c['cdef'])]
-            if rng.random() < 0.6:
+            r = rng.random()
+            if reuse and r < 0.7:
+                pass
+            elif r < 0.45:
                 items.insert(0, [['n', ['frac', rng.choice(FACTORS)]], 1])
+            elif r < 0.6:
+                # plain int with a negative exponent (exact power needed)
+                items.insert(0, [['n', ['int', rng.choice(['10/1', '2/1', '3/1', '60/1'])]],
+                                 rng.choice([-1, -2, -3])])
             d = {'d': 'unit', 'cls': c['name'], 'sym': fresh('t'), 'def': ['term', items]}
             if fault:
                 f = rng.choice(['wrongdim', 'wrongcls', 'dupsym'])
